@@ -961,6 +961,50 @@ theorem C03_permits_balanced (cfg : Cfg) (oracle : List (List Nat)) (toks : List
   simp [hd] at hS hN
   exact ⟨hS, hN, hinv.w.noPanic⟩
 
+/-- the same in every scope of the limits group (`all`, and `ip` / `source` summed over their keys) -/
+theorem C03_permits_balanced_every_scope (cfg : Cfg) (oracle : List (List Nat)) (toks : List Tok) :
+    (run cfg (start oracle) toks).1.w.heldTotal = 0 := by
+  obtain ⟨hS, hN, _⟩ := C03_permits_balanced cfg oracle toks
+  simp [World.heldTotal, hS, hN]
+
+/-- a `TakeMsg` that fails (some scope is not granted before the deadline) holds nothing: whatever it took in
+the scopes before the failing one is given back -/
+theorem C03_takeMsg_refused_holds_nothing (has granted : Scope → Bool) (h : Held)
+    (hr : (takeMsg has granted h).2 = false) : (takeMsg has granted h).1 = h := by
+  unfold takeMsg at hr ⊢
+  cases h with
+  | mk a i s =>
+    cases hA : granted .all <;> cases hI : granted .ip <;> cases hS : granted .source <;>
+      cases hi : has .ip <;> cases hs : has .source <;> simp_all
+
+/-- a `TakeMsg` that succeeds takes one permit in every configured scope, and `ReleaseMsg` returns exactly those -/
+theorem C03_takeMsg_granted_release_restores (has granted : Scope → Bool) (h : Held)
+    (hg : (takeMsg has granted h).2 = true) : releaseMsg has (takeMsg has granted h).1 = h := by
+  unfold takeMsg at hg ⊢
+  cases h with
+  | mk a i s =>
+    cases hA : granted .all <;> cases hI : granted .ip <;> cases hS : granted .source <;>
+      cases hi : has .ip <;> cases hs : has .source <;> simp_all [releaseMsg]
+
+/-- sessions refused because a scope is exhausted leave the permits exactly as they were, however many there are -/
+theorem C03_contention_holds_nothing (has : Scope → Bool) (tight : Scope) (hc : tight = .all ∨ has tight = true)
+    (k : Nat) (h : Held) :
+    (contend has tight k h).2 = h ∧ (contend has tight k h).1 = List.replicate k 451 := by
+  induction k generalizing h with
+  | zero => simp [contend]
+  | succ k ih =>
+    have hr : (takeMsg has (fun s => s != tight) h).2 = false := by
+      unfold takeMsg
+      cases tight <;> cases hi : has .ip <;> cases hs : has .source <;> simp_all
+    have hh := C03_takeMsg_refused_holds_nothing has _ h hr
+    simp only [contend]
+    rw [show takeMsg has (fun s => s != tight) h = (h, false) from Prod.ext hh hr]
+    simp [ih h, List.replicate_succ]
+
+example : contend (fun _ => true) .source 2 ⟨1, 1, 1⟩ = ([451, 451], ⟨1, 1, 1⟩) := by decide
+example : (takeMsg (fun _ => true) (fun s => s != .source) ⟨1, 1, 1⟩) = (⟨1, 1, 1⟩, false) := by decide
+example : (takeMsg (fun _ => true) (fun _ => true) ⟨0, 0, 0⟩) = (⟨1, 1, 1⟩, true) := by decide
+
 /-- during the session at most the permit of the open transaction is held, and exactly that one -/
 theorem C03_permits_during (cfg : Cfg) (oracle : List (List Nat)) (toks : List Tok) :
     let st := steps cfg (start oracle) toks
